@@ -378,12 +378,17 @@ def run(ctx):
         for strat in ("SliceByLine", "MultiLine"):
             f = facts.fn(GL + strat + "::run")
             fin = f.calls_to(CORE + "::finish")
-            bc = facts.fn(GL + strat + "::byte_count")
+            from .c03 import byte_count_fn
+            bc = byte_count_fn(facts, strat)
+            if bc is None:
+                r.bad("count|" + strat, "%s::run no longer reports its cursor as the byte count" % strat, fn=f, construct="byte_count")
+                continue
             ebc = ExprBuilder(bc)
             rets = [ebc.rvalue(st["rv"]) for bb, j, st in bc.stmts() if st["k"] == "assign" and st["place"]["l"] == 0 and not st["place"]["p"]]
-            eb = ExprBuilder(f)
-            if fin and mentions_call(eb.operand(fin[0].args[1]), GL + strat + "::byte_count") and rets and \
-                    any(mentions_call(e, POS) for e in rets):
+            fr_ = facts.raw.fns.get(f.path, f)
+            fin_r = fr_.calls_to(CORE + "::finish")
+            if fin and fin_r and mentions_call(ExprBuilder(fr_).operand(fin_r[0].args[1]), bc.path) and rets and \
+                    any(mentions_call(e, POS) or mentions_field(e, CORE, "pos") for e in rets):
                 r.ok("count|" + strat, "finish(byte_count()) with byte_count() = pos (or the binary offset before it)", fn=f)
             else:
                 r.bad("count|" + strat, "%s::run no longer reports its cursor as the byte count" % strat, fn=f, construct="byte_count")
